@@ -1,18 +1,22 @@
 import StorageModel.Driver.Common
-import StorageModel.C20.TypingCheck
+import StorageModel.C20.Transform
+import StorageModel.C20.Shape
+import StorageModel.C20.Api
 import StorageModel.Generated.AcceptTable
 /- model driver for C20 (line protocol; never used by a proof).
 
    case line:  <tag> <mask> <maps> <pub> <query> <tree…>
      tag    p = query text parsed by the real ast.Parse, s = real tree built field by field,
-            u = untyped tree as the parse listener leaves it (only the traversal is observed)
+            u = untyped tree as the parse listener leaves it (only the traversal is observed),
+            a = query assembled through the exported API (recipe in <query>; harness/c20_api.go)
      maps, pub   comma separated names `x<hex>`, `-` for the empty list
-     tree   pre-order:  Z  |  N <kind> <#strs> {<field> x<hex>} <#kids> {<label> <tree>}
-   model output:  ok v=<visited>  |  err x<hex> v=<visited>  |  panic  |  - v=<visited> (tag u)  |  bad-shape
+     tree   pre-order:  Z  |  T <kind> (typed nil pointer in an interface)  |  N <kind> <#strs> {<field> x<hex>} <#kids> {<label> <tree>}
+   model output:  ok v=<visited> g=<…> gp=<0|1>  |  err x<hex> v=<visited> g=<…> gp=<0|1>  |  panic  |  - v=<visited> (tag u)  |  bad-shape
    tag p lines carry a second tree after `//`: the untyped tree of the same text
    spec output:   wf=<0|1> cfg=<0|1> nc=<0|1> tt=<0|1> ty=<0|1> bad=<names> all=<names>
                   (tt: typed tree and query text reference the same symbols;
-                   ty: `isTyping` accepts (untyped tree, typed tree), i.e. the relation `Typing` holds)
+                   ty: `transform` (C20/Transform.lean) of the untyped tree for the symbol types of the line
+                       IS the typed tree; the symbol types follow the untyped tree after a second `//`)
 -/
 namespace StorageModel.Driver.C20
 open StorageModel StorageModel.Driver StorageModel.C20
@@ -33,6 +37,7 @@ def encodeNames (l : List Bytes) : String :=
 mutual
 partial def parseTree : List String → Option (Tree × List String)
   | "Z" :: rest => some (.nil, rest)
+  | "T" :: kind :: rest => some (.tnil kind, rest)
   | "N" :: kind :: ns :: rest => do
     let n ← ns.toNat?
     let (strs, rest) ← parseStrs n rest
@@ -59,11 +64,40 @@ partial def parseKids : Nat → List String → Option (Kids × List String)
   | _, _ => none
 end
 
+/-- symbol types as the harness read them off the real ast.SymbolTypes:
+    `S <n> {x<hex> <NodeTypeXxx | -> <symtab | Z>}` -/
+inductive TabEntry where
+  | mk (name : Bytes) (ty : Option NT) (sub : Option (List TabEntry))
+
+partial def parseTab : List String → Option (List TabEntry × List String)
+  | "S" :: ns :: rest => do
+    let n ← ns.toNat?
+    let rec go : Nat → List String → Option (List TabEntry × List String)
+      | 0, rest => some ([], rest)
+      | k + 1, nm :: ty :: rest => do
+        let name ← decodeName nm
+        let t := if ty == "-" then none else some (NT.ofGo ty)
+        let (sub, rest) ← match rest with
+          | "Z" :: rest => some (none, rest)
+          | rest => (parseTab rest).map fun (l, r) => (some l, r)
+        let (more, rest) ← go k rest
+        some (TabEntry.mk name t sub :: more, rest)
+      | _, _ => none
+    go n rest
+  | _ => none
+
+instance : Inhabited SymTab := ⟨.mk (fun _ => none) (fun _ => none)⟩
+
+partial def toSymTab (l : List TabEntry) : SymTab :=
+  .mk (fun nm => (l.find? fun | .mk n _ _ => n == nm).bind fun | .mk _ t _ => t)
+      (fun nm => (l.find? fun | .mk n _ _ => n == nm).bind fun | .mk _ _ sub => sub.map toSymTab)
+
 structure Case where
   tag : String
   cfg : PubCfg
   tree : Tree
   source : Option Tree      -- tag p: the untyped tree of the same query text (what the text references)
+  symtab : Option SymTab := none    -- tag p: the symbol types the text was parsed against
 
 def parseCase (line : String) : Option Case :=
   match splitSp line with
@@ -75,11 +109,33 @@ def parseCase (line : String) : Option Case :=
     | [] => some { tag := tag, cfg := { maps := m, pub := p }, tree := t, source := none }
     | "//" :: more =>
       let (u, rest) ← parseTree more
-      if rest.isEmpty then some { tag := tag, cfg := { maps := m, pub := p }, tree := t, source := some u } else none
+      match rest with
+      | [] => some { tag := tag, cfg := { maps := m, pub := p }, tree := t, source := some u }
+      | "//" :: tab =>
+        let (entries, rest) ← parseTab tab
+        if rest.isEmpty then
+          some { tag := tag, cfg := { maps := m, pub := p }, tree := t, source := some u, symtab := some (toSymTab entries) }
+        else none
+      | _ => none
     | _ => none
   | _ => none
 
 def T : Table := Generated.acceptTable
+def env : Env := { T := Generated.acceptTable, E := Generated.enumConsts }
+
+
+def b01 (b : Bool) : String := if b then "1" else "0"
+
+/-- what the Query interface hands out besides Accept (C20/Api.lean): ` g=<symbols of GetSortFields(), ! where Symbol() panics> gp=<GetPredicate() is the predicate child>` -/
+def apiObs (n : Nat) (q : Tree) : String :=
+  let syms := sortFieldSymbols Generated.symbolVia Generated.queryApi n q
+  let g := if syms.isEmpty then "-" else ",".intercalate (syms.map fun
+    | some s => encodeName s
+    | none => "!")
+  let gp := match getPredicate Generated.queryApi q, q with
+    | [t], .node _ _ (.cons "Predicate" t' _) => treeEq t t'
+    | _, _ => false
+  " g=" ++ g ++ " gp=" ++ b01 gp
 
 def step (line : String) : String :=
   match parseCase line with
@@ -91,12 +147,11 @@ def step (line : String) : String :=
       if c.tag == "u" then
         (if panics T c.tree then "panic" else "-" ++ v)
       else
-        match validate T c.cfg c.tree with
+        -- the validator as regenerated from boltz/validate.go, boltz/store_query.go (C20/Shape.lean)
+        match validateS T Generated.validatorShape c.cfg c.tree with
         | .panic => "panic"
-        | .ok none => "ok" ++ v
-        | .ok (some s) => "err " ++ encodeName s ++ v
-
-def b01 (b : Bool) : String := if b then "1" else "0"
+        | .ok none => "ok" ++ v ++ apiObs line.length c.tree
+        | .ok (some s) => "err " ++ encodeName s ++ v ++ apiObs line.length c.tree
 
 def specStep (line : String) : String :=
   match parseCase line with
@@ -110,10 +165,12 @@ def specStep (line : String) : String :=
     let all := (typed ++ src).eraseDups
     let bad := all.filter (fun s => !specIsPublic c.cfg s)
     let tt := typed.all (fun s => src.contains s) && src.all (fun s => typed.contains s)
-    -- the modelled typing relation holds between the real untyped and the real typed tree
-    let ty := match c.source with
-      | some u => isTyping T (line.length) u c.tree
-      | none => true
+    -- the modelled typing transformation, applied to the real untyped tree for the real symbol types,
+    -- yields the real typed tree
+    let ty := match c.source, c.symtab with
+      | some u, some st =>
+        okIs (transform env (line.length) st u) c.tree
+      | _, _ => true
     "wf=" ++ b01 (nilOk c.tree) ++ " cfg=" ++ b01 (pubWF c.cfg) ++ " nc=" ++ b01 (namesCovered T c.tree) ++
       " tt=" ++ b01 tt ++ " ty=" ++ b01 ty ++ " bad=" ++ encodeNames bad ++ " all=" ++ encodeNames all
 
